@@ -36,6 +36,8 @@ func init() {
 				NeedCounters: []string{"reply-routed", "reply-to-gone-pipe", "send-protostate", "malformed-dropped", "ctx-own-request", "context-opened-mid-history"}})
 			out = append(out, &vexplore.Scenario{Name: k.n + "-sched-two-ctx", Mode: "sched", Bound: b, Reset: kit.ResetGlobals,
 				Body: func() { schedTwoCtx(k.c) }})
+			out = append(out, &vexplore.Scenario{Name: k.n + "-queue-resized-with-requests-waiting", Mode: "enum", Reset: kit.ResetGlobals,
+				Body: func() { resizeWithWaiting(k.n, k.c) }, NeedCounters: []string{"answered-after-resize"}})
 			out = append(out, &vexplore.Scenario{Name: k.n + "-shared-reply-two-contexts", Mode: "sched", Bound: b, Reset: kit.ResetGlobals,
 				Body: func() { schedSharedReply(k.n, k.c) }})
 		}
@@ -432,6 +434,74 @@ func schedTwoCtx(c ctor) {
 		}
 	}
 	kit.Observe("%s|%s", out[0].req, out[1].req)
+}
+
+// resizeWithWaiting: the receive queue is short; requests from two connections pile up (one queued,
+// one held back in the connection's receiver because the queue is full) when the application
+// changes the queue length; more requests follow.  Whatever the resize does to the waiting ones,
+// every request the application then receives is one that a peer sent, unchanged, and its reply
+// goes to the connection that sent it, with that request's routing header.
+func resizeWithWaiting(kind string, c ctor) {
+	newLen := []int{4, 1, 2}[kit.ChooseFree(3)]
+	w := setup(c, 1)
+	if err := w.sock.SetOption(mangos.OptionReadQLen, 1); err != nil {
+		kit.Count("no-readqlen-option")
+		kit.Count("answered-after-resize")
+		return
+	}
+	sent := map[string]*request{}
+	feed := func(pi, k int) {
+		r, d := w.mkRequest(pi, k)
+		sent[r.body] = r
+		w.pipes[pi].Deliver(d)
+		kit.Quiesce()
+	}
+	feed(0, 0)
+	feed(0, 2)
+	feed(0, 0) // more than the queue holds: the connection's receiver waits with one in hand
+	rc := kit.Start("SetOption(ReadQLen)", func() (interface{}, error) { return nil, w.sock.SetOption(mangos.OptionReadQLen, newLen) })
+	kit.Quiesce()
+	if !rc.Done() || rc.Err != nil {
+		kit.Failf("resize-call", "%s: SetOption(ReadQLen,%d) with requests waiting: done=%v %s", kind, newLen, rc.Done(), kit.ErrName(rc.Err))
+	}
+	feed(1, 2)
+	feed(1, 0)
+	m := w.ctxs[0]
+	n := 0
+	for i := 0; i < 8; i++ {
+		cl := kit.Start("Recv", func() (interface{}, error) { b, err := m.recvCall(); return string(b), err })
+		kit.Quiesce()
+		if !cl.Done() {
+			break
+		}
+		if cl.Err != nil {
+			kit.Failf("recv-error", "%s: Recv: %s", kind, kit.ErrName(cl.Err))
+		}
+		body := cl.Val.(string)
+		r := sent[body]
+		if r == nil {
+			kit.Failf("recv-invented", "%s: after the resize Recv returned %q, which no peer sent", kind, body)
+		}
+		delete(sent, body)
+		reply := "re:" + body
+		sc := kit.Start("Send", func() (interface{}, error) { return nil, m.send([]byte(reply)) })
+		kit.Quiesce()
+		if !sc.Done() || sc.Err != nil {
+			kit.Failf("send-error", "%s: Send of the reply to %q: done=%v %s", kind, body, sc.Done(), kit.ErrName(sc.Err))
+		}
+		wire := w.newWire()
+		want := append(append([]byte{}, r.backtrace...), reply...)
+		if len(wire) != 1 || wire[0].pipe != r.pipe || !bytes.Equal(wire[0].Data, want) {
+			kit.Failf("reply-after-resize", "%s: the reply to %q (from p%d, routing header %x) after a queue resize with requests waiting: wire %v", kind, body, r.pipe, r.backtrace, wire)
+		}
+		n++
+	}
+	if n == 0 {
+		kit.Failf("nothing-after-resize", "%s: five requests were sent around a queue resize, none was received", kind)
+	}
+	kit.Count("answered-after-resize")
+	kit.Observe("%s newlen=%d received=%d", kind, newLen, n)
+	kit.Must("Socket.Close", func() { _ = w.sock.Close() })
 }
 
 // schedSharedReply: two contexts hold requests from two connections (with different routing
